@@ -71,6 +71,38 @@ def load_known():
     return json.load(open(p)).get("findings", [])
 
 
+def _eval_config(job):
+    """evaluate one property's rules on one feature configuration (separate process in the thorough tier)"""
+    pid, tier, cfg, d, meta = job
+    mod = importlib.import_module("rules." + pid)
+    raw = facts.load_raw(d)
+    prog = model.Program(raw)
+    am = anchor.AnchorModel(prog, raw)
+    ctx = Ctx(pid, tier, prog, am, raw, meta, cfg)
+    try:
+        mod.run(ctx)
+    except AnchorMissing:
+        pass
+    except Exception:
+        traceback.print_exc()
+        ctx.instances.append({"rule": pid + ".engine", "construct": "engine", "status": "VIOLATION", "expected": "rule evaluation completes",
+                              "found": "engine exception: " + traceback.format_exc()[-600:], "loc": None, "detail": None, "config": cfg,
+                              "reason": "engine-error"})
+    inst = list(ctx.instances)
+    from collections import Counter
+    cnt = Counter(i["rule"] for i in ctx.instances if i["status"] != "VIOLATION" or i.get("reason") != "anchor-missing")
+    for r, n in ctx.floors.items():
+        if cnt.get(r, 0) < n:
+            inst.append({"rule": r, "construct": "floor", "status": "VIOLATION", "expected": ">= %d instances" % n,
+                         "found": "%d instances" % cnt.get(r, 0), "loc": None, "detail": None, "config": cfg, "reason": "anchor-missing"})
+    st = {}
+    if cfg == "default":
+        st = {"functions_analysed": len(prog.fns), "call_sites": sum(len(f.calls()) for f in prog.fns.values()), "instructions": len(am.instructions),
+              "accounts_structs": len(am.structs), "bool_joins_threaded": sum(f.nthreaded for f in prog.fns.values())}
+    return {"instances": inst, "floors": dict(ctx.floors), "tables": {"%s@%s" % (k, cfg): v for k, v in ctx.tables.items()},
+            "config": {"config": cfg, "tree_hash": meta["tree_hash"], "files_hashed": meta["files_hashed"]}, "stats": st}
+
+
 def run_property(pid, tier, replay=None):
     t0 = time.time()
     seed = int(os.environ.get("VERIF_SEED", "0") or 0)
@@ -80,43 +112,27 @@ def run_property(pid, tier, replay=None):
     tables = {}
     stats = {"configs": [], "functions_analysed": 0, "call_sites": 0, "instructions": 0, "accounts_structs": 0, "bool_joins_threaded": 0}
     floors = {}
+    built = []
     for cfg in configs:
         try:
             d, meta = facts.build(cfg)
         except facts.AnalysisError as e:
             print("ANALYSIS-ERROR property=%s config=%s: %s" % (pid, cfg, str(e)[-1500:]))
             return 2
-        raw = facts.load_raw(d)
-        prog = model.Program(raw)
-        am = anchor.AnchorModel(prog, raw)
-        ctx = Ctx(pid, tier, prog, am, raw, meta, cfg)
-        try:
-            mod.run(ctx)
-        except AnchorMissing:
-            pass
-        except Exception:
-            traceback.print_exc()
-            ctx.instances.append({"rule": pid + ".engine", "construct": "engine", "status": "VIOLATION", "expected": "rule evaluation completes",
-                                  "found": "engine exception: " + traceback.format_exc()[-600:], "loc": None, "detail": None, "config": cfg,
-                                  "reason": "engine-error"})
-        all_inst.extend(ctx.instances)
-        floors = ctx.floors
-        for k, v in ctx.tables.items():
-            tables["%s@%s" % (k, cfg)] = v
-        stats["configs"].append({"config": cfg, "tree_hash": meta["tree_hash"], "files_hashed": meta["files_hashed"]})
-        if cfg == "default":
-            stats["functions_analysed"] = len(prog.fns)
-            stats["call_sites"] = sum(len(f.calls()) for f in prog.fns.values())
-            stats["instructions"] = len(am.instructions)
-            stats["accounts_structs"] = len(am.structs)
-            stats["bool_joins_threaded"] = sum(f.nthreaded for f in prog.fns.values())
-        # floors per config
-        from collections import Counter
-        cnt = Counter(i["rule"] for i in ctx.instances if i["status"] != "VIOLATION" or i.get("reason") != "anchor-missing")
-        for r, n in ctx.floors.items():
-            if cnt.get(r, 0) < n:
-                all_inst.append({"rule": r, "construct": "floor", "status": "VIOLATION", "expected": ">= %d instances" % n,
-                                 "found": "%d instances" % cnt.get(r, 0), "loc": None, "detail": None, "config": cfg, "reason": "anchor-missing"})
+        built.append((pid, tier, cfg, d, meta))
+    if len(built) > 1:
+        import multiprocessing
+        with multiprocessing.Pool(min(len(built), os.cpu_count() or 1)) as pool:
+            results = pool.map(_eval_config, built)
+    else:
+        results = [_eval_config(b) for b in built]
+    for res in results:
+        all_inst.extend(res["instances"])
+        floors = res["floors"]
+        tables.update(res["tables"])
+        stats["configs"].append(res["config"])
+        if res["config"]["config"] == "default":
+            stats.update(res["stats"])
     # known findings
     known = [k for k in load_known() if k.get("property") == pid and k.get("status", "open") == "open"]
     kkeys = {(k["rule"], k["construct"]) for k in known}
